@@ -788,20 +788,23 @@ class Interp:
         for s1, r in self.eval_list(node.elts, st):
             if r[0] != "ok":
                 yield s1, r
-            elif all(x.kind == "const" and x.shadow is None for x in r[1]):
-                yield s1, ("ok", const(tuple(x.d for x in r[1])))
             else:
-                items = r[1]
-                tv = V("tuple", items)
-                root = self.common_root(items) if all(self.is_concrete_like(x) for x in items) else False
-                if root not in (False, None):
-                    cells = None
-                    for x in items:
-                        if x.shadow is not None:
-                            cells = set(x.shadow) if cells is None else cells & set(x.shadow)
-                    tv.root = root
-                    tv.shadow = {c: (lambda c=c, items=items: tuple(self.concrete(x, c) for x in items)) for c in cells}
-                yield s1, ("ok", tv)
+                yield s1, ("ok", self.tuple_value(r[1]))
+
+    def tuple_value(self, items):
+        """the value of a tuple display: a constant when every element is one, shadowed per cell when every element is"""
+        if all(x.kind == "const" and x.shadow is None for x in items):
+            return const(tuple(x.d for x in items))
+        tv = V("tuple", items)
+        root = self.common_root(items) if all(self.is_concrete_like(x) for x in items) else False
+        if root not in (False, None):
+            cells = None
+            for x in items:
+                if x.shadow is not None:
+                    cells = set(x.shadow) if cells is None else cells & set(x.shadow)
+            tv.root = root
+            tv.shadow = {c: (lambda c=c, items=items: tuple(self.concrete(x, c) for x in items)) for c in cells}
+        return tv
 
     def e_List(self, node, st):
         for s1, r in self.eval_list(node.elts, st):
@@ -1116,6 +1119,16 @@ class Interp:
                     pass
                 yield st, ("ok", self.make_exception(st, o, args, kwargs))
                 return
+            if getattr(o, "__name__", None) == "join" and isinstance(getattr(o, "__self__", None), str) and len(args) == 1 \
+                    and not kwargs and args[0].kind in ("gen", "iter", "ref"):
+                # sep.join(<producer>): drain the producer (statically known length), then apply on the element tuple
+                from .builtins_theory import iterate_concrete
+                for s1, r1 in iterate_concrete(self, st, args[0]):
+                    if r1[0] != "ok":
+                        yield s1, r1
+                    else:
+                        yield from self.call(s1, f, [self.tuple_value(list(r1[1]))], {})
+                return
             allv = list(args) + list(kwargs.values())
             if all(self.is_concrete_like(a) for a in allv) and self.common_root(allv) is not False:
                 if not self.ctx_is_pure_callable(o):
@@ -1126,7 +1139,7 @@ class Interp:
             if h is not None:
                 yield from h(self, st, o, args, kwargs)
                 return
-            raise Unsupported(f"call of {o!r} on symbolic arguments")
+            raise Unsupported(f"call of {o!r} on symbolic arguments {[a.kind for a in args]} {[getattr(a, 'tag', None) for a in args]}")
         if f.kind == "type":
             raise Unsupported("call of symbolic class")
         # symbolic / shadowed callable
@@ -1265,8 +1278,9 @@ class Interp:
 
     def call_closure(self, st: St, clo: Closure, args, kwargs):
         depth = st.env.get("$depth", 0)
-        if depth > 12:
-            raise Unsupported("inlining depth exceeded (recursion?)")
+        if depth > getattr(self, "max_depth", 12):
+            raise Unsupported(f"inlining depth exceeded (recursion?) in {getattr(clo.node, 'name', '<lambda>')} "
+                              f"args={[repr(a)[:60] for a in args][:3]}")
         env = self.bind_params(st, clo.node, args, kwargs, clo.env)
         if env is None:
             yield st, (RAISE, self.make_exception(st, TypeError, []))
